@@ -238,7 +238,7 @@ C13_LAYERS = [
           enumerate=lambda tier: ({"mode": m, "ids": ids, "warm": wm} for m in ("write", "read") for ids in ([10], [10, 12], [12, 11, 10]) for wm in (False, True))),
     Layer("coap-batch-table", run_c13_coap, enumerate=enum_c13_coap, exhaustive=True,
           space="write and read batches of 1..3 items x 10 per-item outcomes (ok, PDU status 1..6, status with a non-empty body, wrong tid, wrong control bits); quick: every 3rd vector for n = 3", min_nontrivial=300),
-    Layer("coap-batch-gen", run_c13_coap, strategy=c13_coap_cases, n={"quick": 2000, "thorough": 30000}),
+    Layer("coap-batch-gen", run_c13_coap, strategy=c13_coap_cases, n={"quick": 4000, "thorough": 30000}),
 ]
 
 
@@ -773,7 +773,7 @@ def c17_coap_initial_cases(draw):
 C17_COAP_INITIAL_LAYERS = [
     Layer("coap-initial-read", run_c17_coap_initial, enumerate=enum_c17_coap_initial, exhaustive=True,
           space="services of 1..24 characteristics x {all readable, every third write-only, every fourth answering with status 6}", min_nontrivial=40),
-    Layer("coap-initial-read-gen", run_c17_coap_initial, strategy=c17_coap_initial_cases, n={"quick": 300, "thorough": 6000}),
+    Layer("coap-initial-read-gen", run_c17_coap_initial, strategy=c17_coap_initial_cases, n={"quick": 600, "thorough": 6000}),
 ]
 
 
